@@ -910,7 +910,7 @@ func runC10(r *rt.Run, tier string) {
 func init() {
 	register(&Prop{
 		ID: "C10", Level: "exploration", Variant: "I", Design: "DESIGN.md §5 C10",
-		Rule:      "Each run draws a model of one document kind (.dsc, .changes, debian/control with 1..4 binaries, Packages with 1..5 stanzas, Sources with 1..4 stanzas), renders it with an independent renderer in the layout dpkg-dev/apt write (comma and space lists single-line or folded, uploaders with UTF-8 names, file lists as leading-newline blocks of 'hash size [section priority] name', dependency fields single-line or folded, unknown fields, comments and 1..2 separating blank lines in debian/control), and parses it through the typed entry point over a simulated stream wrapped in a caller bufio.Reader of 16, 64, 200, 4096 or 65536 bytes, or through the *File entry point on the simulated file system. One sixth of the runs inject EIO at byte k. Every typed field and derived accessor is compared with the model. Further parts: relative names given to the *File entry points while the simulated process changes directory; 2..3 concurrent callers decoding documents of one kind first thing in the run - also in cold-start runs (one fresh process per run), where first-use initialisation inside the library happens under the run's schedule.",
+		Rule:      "Each run draws a model of one document kind (.dsc, .changes, debian/control with 1..4 binaries, Packages with 1..5 stanzas, Sources with 1..4 stanzas), renders it with an independent renderer in the layout dpkg-dev/apt write (comma and space lists single-line or folded, blank-separated lists without a delimiter tag - Architecture, Closes - also with runs of blanks, uploaders with UTF-8 names, file lists as leading-newline blocks of 'hash size [section priority] name', dependency fields single-line or folded, unknown fields, comments and 1..2 separating blank lines in debian/control), and parses it through the typed entry point over a simulated stream wrapped in a caller bufio.Reader of 16, 64, 200, 4096 or 65536 bytes, or through the *File entry point on the simulated file system. One sixth of the runs inject EIO at byte k. Every typed field and derived accessor is compared with the model. Further parts: relative names given to the *File entry points while the simulated process changes directory; 2..3 concurrent callers decoding documents of one kind first thing in the run - also in cold-start runs (one fresh process per run), where first-use initialisation inside the library happens under the run's schedule.",
 		Run:       runC10,
 		QuickRuns: 300000, QuickSecs: 40, ThoroughRuns: 4_000_000, ThoroughSecs: 900,
 		ColdQuick: 320, ColdThorough: 6400, ColdForce: map[string]int{"c10.part-concurrent": 11},
